@@ -1,6 +1,7 @@
 package gen
 
 import (
+	"encoding/json"
 	"fmt"
 	"reflect"
 
@@ -71,13 +72,21 @@ func leaf(i int) *jsonschema.Schema {
 	case 2:
 		return &jsonschema.Schema{Not: &jsonschema.Schema{}}
 	}
-	return &jsonschema.Schema{Required: []string{"r"}, Enum: []any{1.0}, Title: fmt.Sprintf("leaf%d", i)}
+	mx := float64(i)
+	return &jsonschema.Schema{Required: []string{"r"}, Enum: []any{1.0}, Title: fmt.Sprintf("leaf%d", i), Maximum: &mx, Default: json.RawMessage(`null`), Examples: []any{}, Types: []string{"integer"}, Extra: map[string]any{"leaf": true}}
 }
 
 // Build constructs the Schema for a tree. kids(field, idx) supplies the subtree
 // for a child position, or nil for a leaf.
 func Build(specs []SubSpec, kids func(field string, idx int) *jsonschema.Schema) *jsonschema.Schema {
-	s := &jsonschema.Schema{Title: "node", Required: []string{"x"}, Extra: map[string]any{"x-extra": 1.0}}
+	// every kind of non-schema field is populated, so that "marshals identically" has something to lose
+	var c any = map[string]any{"k": []any{1.0, nil}}
+	f, i := 1.5, 2
+	s := &jsonschema.Schema{Title: "node", Required: []string{"x"}, Extra: map[string]any{"x-extra": 1.0, "x-obj": map[string]any{"a": []any{"b"}}},
+		Types: []string{"object", "null", "array"}, Const: &c, Default: json.RawMessage(`{"d":[1]}`), Examples: []any{1.0, "e", nil}, Enum: []any{map[string]any{"k": []any{1.0, nil}}, nil},
+		Minimum: &f, ExclusiveMaximum: &f, MultipleOf: &f, MaxLength: &i, MinItems: &i, MaxContains: &i, MinProperties: &i, UniqueItems: true, Deprecated: true, ReadOnly: true,
+		DependentRequired: map[string][]string{"p": {"q"}}, DependencyStrings: map[string][]string{"s": {"t", "u"}},
+		Comment: "c", Description: "d", Format: "f", Pattern: "^p", ContentEncoding: "base64", ContentMediaType: "m", PropertyOrder: []string{"b", "zz", "a"}}
 	v := reflect.ValueOf(s).Elem()
 	n := 0
 	child := func(field string, idx int) *jsonschema.Schema {
